@@ -223,6 +223,10 @@ func saltMarkLen(c *Ctx, split *ssa.Function) (int64, bool) {
 					return k, true
 				}
 			}
+			// an index helper that is handed len(salt): saltLen - K
+			if pa, ok := bo.X.(*ssa.Parameter); ok && pa.Parent() == split && pa.Type().String() == "int" {
+				return k, true
+			}
 		}
 	}
 	return 0, false
